@@ -296,19 +296,30 @@ func writeEvidence(dir string, res *runResult, explanation string, assumptions [
 		cov["cha_recheck"] = true
 	}
 	if len(res.Mutants) > 0 {
-		applied, detected := 0, 0
+		applied, detected, benign, silent := 0, 0, 0, 0
 		var list []any
 		for _, m := range res.Mutants {
-			if m.Applied {
-				applied++
-			}
-			if m.Detected {
-				detected++
+			if m.Benign {
+				if m.Applied {
+					benign++
+					if len(m.Fired) == 0 {
+						silent++
+					}
+				}
+			} else {
+				if m.Applied {
+					applied++
+				}
+				if m.Detected {
+					detected++
+				}
 			}
 			list = append(list, m)
 		}
 		cov["mutants_applied"] = applied
 		cov["mutants_detected"] = detected
+		cov["benign_edits_applied"] = benign
+		cov["benign_edits_silent"] = silent
 		cov["mutants"] = list
 	}
 	for k, v := range res.Extra {
